@@ -141,7 +141,10 @@ def mutate_attr(
 
 def _write_and_invalidate(obj, attr, value, metadata, inplace, skip_invalidation):
     try:
-        getattr(obj.__setattr__, "__raw__", setattr)(obj, attr, value)
+        # (A setter-backed attribute, e.g. an `Alias` or a property, assigns
+        # through the public route: the private copy's frozen guard is lifted.)
+        with unfrozen(obj, only_if=not inplace):
+            getattr(obj.__setattr__, "__raw__", setattr)(obj, attr, value)
     except AttributeError as e:
         if (
             e.args
